@@ -158,14 +158,15 @@ Theorem C08_multiset_force_drain :
 Proof. intros k a m p. exact (@sforce_drain_cnt k a m p). Qed.
 Print Assumptions C08_multiset_force_drain.
 
-(* ---- recorded findings (open) *)
-(* derived PartialEq of GhtLeaf compares the COLT flag `forced` *)
-Theorem C08_forced_eq_refuted :
-  exists ops, ops = forced_ops /\
-    xmodel_run KSet 2 0 ops = [XABool true; XAOptRows (Some [[1; 1]%N]); XACmp (PSome Eq); XABool false] /\
-    xspec_run KSet 0 ops = [XABool true; XAOptRows (Some [[1; 1]%N]); XACmp (PSome Eq); XABool true].
-Proof. exact forced_eq_refuted. Qed.
-Print Assumptions C08_forced_eq_refuted.
+(* ---- recorded findings *)
+(* FORMER FINDING, fixed in /repo by beb89003dcf: the derived PartialEq of GhtLeaf compared the
+   COLT flag `forced` (former theorem C08_forced_eq_refuted, witness PGHT2.forced_ops =
+   insert (1,1); force_drain; partial_cmp; ==).  corpus/C08/forced_flag_eq.json is re-checked
+   first on every run; on the fixed code and model the answers are the specified ones: *)
+Example C08_former_forced_witness :
+  xmodel_run KSet 2 0 forced_ops = xspec_run KSet 0 forced_ops /\
+  xspec_run KSet 0 forced_ops = [XABool true; XAOptRows (Some [[1; 1]%N]); XACmp (PSome Eq); XABool true].
+Proof. exact forced_eq_now_agrees. Qed.
 
 (* an emptied child stays in GhtInner::children and counts as content (outside `wf`) *)
 Theorem C08_empty_child_refuted :
